@@ -18,6 +18,7 @@
  *     r<s>       release slot s (hazard_pointer_done_using)
  *     x<g>f|n    unlink + retire: old = xchg(G[g], fresh node | NULL); hazard_pointer_free(old)
  *     s          explicit hazard_pointer_scan
+ *     p<n>       pause for n scheduling points (no shared access, no event)
  *   The gc callback logs `note reclaim @n`, poisons the node and returns it to the arena
  *   free list (so it is re-published by a later `x`).  Ghost oracle: if a node is reclaimed
  *   while some thread is between a successful validate and its release of that node:
@@ -204,6 +205,9 @@ static void do_op(int t, const char* op) {
     }
     case 's':
       scan(t);
+      break;
+    case 'p': /* pause: n plain scheduling points (lets a protection live through other threads' scans) */
+      for (int n = atoi(op + 1); n > 0; n--) vr_point();
       break;
     default:
       break;
